@@ -14,7 +14,7 @@ TEXT = {
         "technique": "property-based testing (rapid) + exhaustive enumeration of segmentations: metamorphic relation one-piece vs segmented delivery",
     },
     "C04": {
-        "text": "Fault enumeration: for each generated valid body every cut offset (all offsets of bodies ≤400 B quick / ≤8 KiB thorough, otherwise all frame boundaries ±2 plus 64 offsets), four endings and three HTTP-trailer modes are executed against the client; for requests every cut offset against the handler; for handler responses the k-th ResponseWriter.Write fails for every k; for client requests the transport stops reading after every offset k. Bodies themselves are sampled, the fault positions within each are enumerated.",
+        "text": "Fault enumeration: for each generated valid body every cut offset (all offsets of bodies ≤400 B quick / ≤8 KiB thorough, otherwise all frame boundaries ±2 plus 64 offsets), four endings and four HTTP-trailer modes (incl. stray success trailers on in-body-terminator protocols) are executed against the client; for requests every cut offset against the handler; for handler responses the k-th ResponseWriter.Write fails for every k; for client requests the transport stops reading after every offset k. Bodies themselves are sampled, the fault positions within each are enumerated.",
         "design_ref": "DESIGN.md §5 C04",
         "note": "Oracle = strict reference decoder (refwire) applied to exactly the bytes and trailers delivered; hangs are decided by a synctest bubble (deadlock ⇒ failure), not by wall-clock timeouts. Unary Connect bodies cut with a clean EOF are a different complete body and are not asserted.",
         "technique": "property-based testing (rapid) with enumerated fault positions: differential against a strict reference decoder, prefix rule, coded-error rule, bubble deadlock detection",
@@ -50,7 +50,7 @@ TEXT = {
          'random values); near-miss and random strings that are neither a name nor code_<n> are rejected; the percent-codec is enumerated for ALL byte strings '
          'of length ≤3 (in-process via go:linkname in both tiers; additionally black-box through a gRPC client, ≤2 quick / ≤3 thorough) and sampled up to 4 '
          'KiB through a real handler and client; code→HTTP status is enumerated for all 2^32 codes (thorough, linkname) and sampled black-box; binary headers '
-         'round-trip.',
+         'round-trip for every value length 0..4096 (thorough 0..70000, enumerated) and random lengths up to 64 KiB.',
  'design_ref': 'DESIGN.md §5 C18',
  'note': 'The two go:linkname sub-checks are optional: if they stop linking after a refactor they are skipped (noted in the evidence) and the black-box '
          "sub-checks decide. Trusted: refwire's percent codec as second implementation.",
